@@ -239,6 +239,40 @@ Proof.
   rewrite Hr in H. cbn [holds authz] in H. now apply aa_spec.
 Qed.
 
+(* ---- connections: the decision on a request does not depend on what came before it ---- *)
+
+Lemma conn_loop_acc st qs : forall calls outs,
+  conn_loop st qs calls outs =
+  match conn_loop st qs [] [] with
+  | Some (cs, os) => Some ((calls ++ cs)%list, (outs ++ os)%list)
+  | None => None
+  end.
+Proof.
+  induction qs as [|q r IH]; intros calls outs; cbn [conn_loop].
+  - now rewrite !app_nil_r.
+  - destruct (run_request st q) as [h|]; [|reflexivity].
+    rewrite (IH (calls ++ s_calls h)%list (outs ++ s_out h)%list), (IH ([] ++ s_calls h)%list ([] ++ s_out h)%list).
+    destruct (conn_loop st r [] []) as [[cs os]|]; [|reflexivity].
+    cbn [app]. now rewrite !app_assoc.
+Qed.
+
+(* What a connection does is the concatenation of what each of its requests does when run alone
+   against the same store: every request is judged on the credentials it carries, whatever was
+   presented, granted or refused earlier on the connection. *)
+Theorem connection_is_map st qs cs os :
+  conn_loop st qs [] [] = Some (cs, os) ->
+  exists hs, map (run_request st) qs = map Some hs /\
+             cs = List.concat (map s_calls hs) /\ os = List.concat (map s_out hs).
+Proof.
+  revert cs os. induction qs as [|q r IH]; intros cs os H; cbn [conn_loop] in H.
+  - injection H as <- <-. exists []. auto.
+  - destruct (run_request st q) as [h|] eqn:Hq; [|discriminate].
+    rewrite conn_loop_acc in H.
+    destruct (conn_loop st r [] []) as [[cs' os']|] eqn:Hr; [|discriminate].
+    injection H as <- <-. destruct (IH _ _ eq_refl) as (hs & Hm & -> & ->).
+    exists (h :: hs). cbn [map List.concat app]. rewrite Hq, Hm. auto.
+Qed.
+
 (* ---- non-vacuity ---- *)
 Example ex_file18 := [ {| username := "u1"; password := "pw1"; perms := ["query"] |} ].
 Example ex_enforced :
@@ -253,3 +287,9 @@ Example ex_query_ok :
     sensitive (run (holds (authz (Some (load ex_file18)) "u1" "pw1") true) false true h) = true /\
     sensitive (run (holds (authz (Some (load ex_file18)) "u1" "bad") true) false true h) = false.
 Proof. eexists. split; [reflexivity|]. vm_compute. auto. Qed.
+
+Example ex_conn :
+  let q pw := {| q_user := "u1"; q_pass := pw; q_endpoint := "COMMAND_TYPE_QUERY"; q_nil := false; q_voter := true; q_method_ok := true |} in
+  conn_loop (Some (load ex_file18)) [q "pw1"; q "bad"; q "pw1"] [] []
+  = Some (["Query"; "Query"], [OFrame ""; OFrame "unauthorized"; OFrame ""]).
+Proof. vm_compute. reflexivity. Qed.
